@@ -34,7 +34,7 @@ ASSUMPTIONS = ["the reference evaluates the repo's own payoff code on a pristine
                "(no leak from earlier paths / earlier processes), not the payoff formulas themselves; the formulas are "
                "covered only by the monitor identities on the paths produced"]
 TIERS = {
-    "quick": {"worlds": 900, "wall": 500, "shrink_budget": 60,
+    "quick": {"worlds": 8000, "wall": 500, "shrink_budget": 60,
               "required_probes": ["c17.run_completed", "c17.barrier_event_mixed", "c17.reuse_log_then_identity",
                                   "c17.multilevel_run", "c17.pool_run", "c17.default_happened", "c17.default_mixed",
                                   "c17.stochastic_time_grid", "c17.shared_control_variates", "c17.asian_run",
@@ -149,6 +149,8 @@ def _paths(sc, count, m, log, rng):
         if not log:
             # identity representation: additive moves in spot units (kept positive)
             d, j = x0 * d, x0 * 0.5 * j
+            while np.min(x0 + d + j) < 0.25 * x0:  # keep the spot path positive (a log-spot control needs it)
+                d, j = 0.5 * d, 0.5 * j
         return d, j
 
     T = sc["product"]["maturity"]
